@@ -33,12 +33,12 @@ class Effects:
                     if init:
                         self.by_name.setdefault(q.split(".")[-1], []).append(init)
 
-    def of_nodes(self, nodes, ctx=None):
+    def of_nodes(self, nodes, ctx=None, recv_builtin=None):
         """Returns dict(fields=set, locals=set, ghosts=set).  ctx = (module, class) of the enclosing method, used to
         resolve `self.m(...)` / `Class.m(...)` calls precisely; other receivers are resolved by bare method name."""
         self.index()
         fields, locs, ghosts, calls = set(), set(), set(), set()
-        self._direct(nodes, fields, locs, ghosts, calls, ctx)
+        self._direct(nodes, fields, locs, ghosts, calls, ctx, recv_builtin)
         seen, work = set(), list(calls)
         while work:
             call = work.pop()
@@ -110,7 +110,7 @@ class Effects:
             else:
                 fields.add(p.split(".")[-1])
 
-    def _direct(self, nodes, fields, locs, ghosts, calls, ctx):
+    def _direct(self, nodes, fields, locs, ghosts, calls, ctx, recv_builtin=None):
         for root in nodes:
             for n in ast.walk(root):
                 if isinstance(n, ast.Attribute) and isinstance(n.ctx, (ast.Store, ast.Del)):
@@ -126,6 +126,8 @@ class Effects:
                     if isinstance(f, ast.Attribute):
                         if f.attr in MUTATORS:
                             self._base(f.value, fields, locs)
+                        if self._container_receiver(f.value) or (recv_builtin is not None and recv_builtin(f.value)):
+                            continue  # method of a builtin container / string: no package callee
                         if isinstance(f.value, ast.Name) and f.value.id == "self" and ctx:
                             calls.add(("self", f.attr, ctx))
                         elif isinstance(f.value, ast.Name) and ctx and self.src.resolve_class(ctx[0], f.value.id):
@@ -134,6 +136,17 @@ class Effects:
                             calls.add(("any", f.attr, None))
                     elif isinstance(f, ast.Name):
                         calls.add(("any", f.id, None))
+
+    def _container_receiver(self, node):
+        """`<x>.<f>` where f is declared as a container field of some entity: the callee is a builtin container method."""
+        from .ty import TDict, TOrdSet, TList, TSet
+        if isinstance(node, ast.Attribute):
+            for cls, fl in self.reg.entities.items():
+                if isinstance(fl.get(node.attr), (TDict, TOrdSet, TList, TSet)):
+                    return True
+        if isinstance(node, ast.Constant) and isinstance(node.value, str):
+            return True
+        return False
 
     def _base(self, node, fields, locs):
         if isinstance(node, ast.Attribute):
